@@ -27,7 +27,15 @@ struct Sys {
     parsed_image: Vec<u8>,
     /// explore from the new archive only (used by the stateright cross-check)
     only_new: bool,
+    /// message alphabet of set_message
+    msgs: Vec<String>,
 }
+
+/// Second message alphabet ("text"): characters outside Shift-JIS that look like members
+/// (wave dash, double vertical line, em dash), a leading / trailing U+FEFF, CR and CR LF, tab,
+/// astral, Shift-JIS characters whose trail byte is a backslash or is followed by 'n', and
+/// characters that are two bytes in UTF-8 and in Shift-JIS with ASCII after them.
+const TEXT_MSGS: [&str; 14] = ["", "10\u{301C}20", "\u{2016}", "a\u{2014}b", "\u{FEFF}x", "x\u{FEFF}", "\u{FFFE}", "a\r\nb", "\r", "t\tab", "\u{1F600}", "ソn", "能\\n", "HP×2"];
 
 #[derive(Clone)]
 struct St {
@@ -49,7 +57,18 @@ impl Sys {
         t.set_message("b", "seed\\nB");
         t.set_message("a", "seedA");
         let parsed_image = t.serialize().expect("serialize seed");
-        Sys { keys, fmt, endian, parsed_image, only_new: false }
+        Sys { keys, fmt, endian, parsed_image, only_new: false, msgs: MSGS.iter().map(|m| m.to_string()).collect() }
+    }
+    fn with_text_msgs(mut self) -> Sys {
+        self.msgs = TEXT_MSGS.iter().map(|m| m.to_string()).collect();
+        self
+    }
+    /// can the model's content be written in this system's format at all?
+    fn encodable(&self, m: &TextModel) -> bool {
+        match self.fmt {
+            TextArchiveFormat::Unicode => vcore::sjis::lossless(&m.title) || m.title.is_empty(),
+            _ => m.entries.iter().all(|(k, v)| vcore::sjis::lossless(k) || k.is_empty()) && m.entries.iter().all(|(_, v)| v.is_empty() || vcore::sjis::lossless(v)),
+        }
     }
     fn fresh(&self, init: usize) -> TextArchive {
         if init == 0 {
@@ -108,8 +127,8 @@ impl System for Sys {
     fn actions(&self, _s: &Self::State) -> Vec<Op> {
         let mut v = Vec::new();
         for k in &self.keys {
-            for m in MSGS {
-                v.push(Op::Set(k.to_string(), m.to_string()));
+            for m in &self.msgs {
+                v.push(Op::Set(k.to_string(), m.clone()));
             }
             v.push(Op::Delete(k.to_string()));
         }
@@ -172,7 +191,11 @@ impl System for Sys {
             }
             // serialize → parse lists the same keys in the same order, and is clean
             match t.serialize() {
-                Err(e) => d.push(format!("serialize failed: {}", e)),
+                Err(e) => {
+                    if self.encodable(&model) {
+                        d.push(format!("serialize failed: {}", e))
+                    }
+                }
                 Ok(bytes) => match TextArchive::from_bytes(&bytes, self.fmt, self.endian) {
                     Err(e) => d.push(format!("from_bytes(serialize()) failed: {}", e)),
                     Ok(back) => {
@@ -275,6 +298,8 @@ fn systems(tier: Tier) -> Vec<(String, Sys)> {
         ("Unicode/Little/3 keys".to_string(), Sys::new(keys3.clone(), TextArchiveFormat::Unicode, Endian::Little)),
         ("ShiftJIS/Big/2 keys".to_string(), Sys::new(vec!["a", "b"], TextArchiveFormat::ShiftJIS, Endian::Big)),
     ];
+    v.push(("Unicode/Little/2 keys/text alphabet".to_string(), Sys::new(vec!["a", "ソn"], TextArchiveFormat::Unicode, Endian::Little).with_text_msgs()));
+    v.push(("ShiftJIS/Little/2 keys/text alphabet".to_string(), Sys::new(vec!["a", "ソn"], TextArchiveFormat::ShiftJIS, Endian::Little).with_text_msgs()));
     if tier == Tier::Thorough {
         v.push(("ShiftJIS/Big/3 keys".to_string(), Sys::new(keys3, TextArchiveFormat::ShiftJIS, Endian::Big)));
         v.push(("Unicode/Little/4 keys (depth-bounded)".to_string(), Sys::new(vec!["a", "b", "c", "d"], TextArchiveFormat::Unicode, Endian::Little)));
